@@ -13,6 +13,8 @@ func init() {
 	vxRegister("H17a4", H17a4)
 	vxRegister("H17a5", H17a5)
 	vxRegister("H17a7", H17a7)
+	vxRegister("H17a8", H17a8)
+	vxRegister("H17a9", H17a9)
 	vxRegister("H17aT", H17aT)
 }
 
@@ -22,6 +24,8 @@ func H17a3() { h17a(vxString(3)) }
 func H17a4() { h17a(vxString(4)) }
 func H17a5() { h17a(vxString(5)) }
 func H17a7() { h17a(vxString(7)) }
+func H17a8() { h17a(vxString(8)) }
+func H17a9() { h17a(vxString(9)) }
 
 // H17aT: templates - concrete words around two symbolic bytes.
 func H17aT() {
